@@ -117,28 +117,30 @@ theorem hexLit_no_comma {n : Nat} {hs : Str} (h : IsHexLit n hs) : ',' ∉ hs :=
 
 /-! ### `NumericValue("$hh…")` -/
 
-/-- two to four hex digits after `$` -/
+/-- two to four hex digits after `$` (an explicit `>` keeps a two-digit literal from becoming direct, fix A6) -/
 theorem numericOfStr_hex (a b : Char) (t : Str) (sizeHint : Option Nat) (mode : Mode)
     (hall : (a :: b :: t).all isHexD = true) (hlen : t.length ≤ 2) :
     numericOfStr ('$' :: a :: b :: t) sizeHint mode =
       .ok (.numeric (parseBase 16 (a :: b :: t))
-        (if t.length = 0 ∧ sizeHint.isNone then some 2 else initHint sizeHint mode)
-        (let m := if t.length = 0 ∧ sizeHint.isNone then (if mode != .immediate then Mode.direct else mode) else mode
+        (if t.length = 0 ∧ sizeHint.isNone ∧ mode ≠ .explExtended then some 2 else initHint sizeHint mode)
+        (let m := if t.length = 0 ∧ sizeHint.isNone ∧ mode ≠ .explExtended
+                  then (if mode != .immediate then Mode.direct else mode) else mode
          if m == .none then .extended else m) false) := by
   have hl : ¬ (t.length + 1 + 1 > 4) := by omega
   have hne : (a :: b :: t != []) = true := by simp
   unfold numericOfStr
   simp only [hall, hne, Bool.and_self, if_true]
   by_cases h0 : t.length = 0
-  · cases hs : sizeHint <;> simp [h0]
+  · cases hs : sizeHint <;> by_cases hm : mode = .explExtended <;> simp [h0, hm]
   · simp [h0, hl]
 
-/-- `$hh` : two digits.  Without a size hint the value is DIRECT with hint 2 (immediate stays immediate) -/
+/-- `$hh` : two digits.  Without a size hint (and without `>`) the value is DIRECT with hint 2 (immediate stays
+immediate) -/
 theorem numericOfStr_hex2 {hs : Str} (h : IsHexLit 2 hs) (sizeHint : Option Nat) (mode : Mode) :
     numericOfStr ('$' :: hs) sizeHint mode =
       .ok (.numeric (parseBase 16 hs)
-        (if sizeHint.isNone then some 2 else initHint sizeHint mode)
-        (let m := if sizeHint.isNone then (if mode != .immediate then Mode.direct else mode) else mode
+        (if sizeHint.isNone ∧ mode ≠ .explExtended then some 2 else initHint sizeHint mode)
+        (let m := if sizeHint.isNone ∧ mode ≠ .explExtended then (if mode != .immediate then Mode.direct else mode) else mode
          if m == .none then .extended else m) false) := by
   obtain ⟨hl, ha⟩ := h
   match hs, hl with
@@ -230,6 +232,23 @@ theorem create_immediate {fuel : Nat} {value : Str} {is16 defExt : Bool} {v : Va
   have b2 : ('#' == '>') = false := by decide
   have hcomma : value.contains ',' = false := by simpa using hc
   simp only [create, Bool.false_and, Bool.false_eq_true, if_false, b1, b2, beq_self_eq_true, if_true, hs, hcomma, hn]
+
+/-- `>atom` : the explicit extended mode -/
+theorem create_explExtended {fuel : Nat} {value : Str} {is16 defExt : Bool} {v : Value}
+    (hs : splitExpr value = none) (hc : ',' ∉ value)
+    (hn : numericOfStr value (if is16 then some 4 else none) .explExtended = .ok v) :
+    create (fuel + 1) ('>' :: value) false is16 defExt = .ok v := by
+  have b1 : ('>' == '<') = false := by decide
+  have hcomma : value.contains ',' = false := by simpa using hc
+  simp only [create, Bool.false_and, Bool.false_eq_true, if_false, b1, beq_self_eq_true, if_true, hs, hcomma, hn]
+
+/-- `<atom` : the explicit direct mode -/
+theorem create_explDirect {fuel : Nat} {value : Str} {is16 defExt : Bool} {v : Value}
+    (hs : splitExpr value = none) (hc : ',' ∉ value)
+    (hn : numericOfStr value (if is16 then some 4 else none) .explDirect = .ok v) :
+    create (fuel + 1) ('<' :: value) false is16 defExt = .ok v := by
+  have hcomma : value.contains ',' = false := by simpa using hc
+  simp only [create, Bool.false_and, Bool.false_eq_true, if_false, beq_self_eq_true, if_true, hs, hcomma, hn]
 
 /-- `left,right` with exactly one comma and no expression on the left -/
 theorem create_leftRight {fuel : Nat} {l r : Str} {is16 defExt : Bool}
